@@ -289,6 +289,7 @@ type Node struct {
 	// crashTorn: the last crash cut a commit in the middle, so the durable height may be either
 	// the one before or the one being committed
 	crashTorn bool
+	dbClosed  bool
 }
 
 func (n *Node) baseOpts() []func(*baseapp.BaseApp) {
